@@ -7,6 +7,8 @@ import OMV.Model.Spec
 import OMV.Proofs.SpecList
 import OMV.Proofs.SpecSweep
 import OMV.Proofs.SpecExpr
+import OMV.Model.C04Idx
+import OMV.Props.C05
 
 namespace OMV.Spec
 
@@ -62,5 +64,123 @@ residual with the transfer expressions substituted: the composed model is the mo
 theorem C04_transfer_subst {K : Type} [CommRing K] (env : Nat → K) (σ : Nat → Expr K) (e : Expr K) :
     Expr.eval env (Expr.subst σ e) = Expr.eval (fun v => Expr.eval env (σ v)) e :=
   eval_subst env σ e
+
+/-! ### from index specifications to positions (ties C05's indexer model into C04) -/
+
+open OMV.C05 OMV.C04Idx in
+/-- the indexer of one level returns NumPy's positions and shape -/
+def LevelRefines (shape : List Nat) (spec : C05.Spec) (flat : Bool) : Prop :=
+  ∀ out, omIndexer spec shape flat = .ok out →
+    out.positions = (npIndex (levelShape shape flat) spec).map (fun r => natsToInts r.1) ∧
+    out.rshape = (npIndex (levelShape shape flat) spec).map (·.2)
+
+open OMV.C05 OMV.C04Idx in
+/-- every level of a chain refines NumPy on the shape the previous levels leave -/
+def ChainRefines : List Nat → List (C05.Spec × Bool) → Prop
+  | _, [] => True
+  | shape, (sp, fl) :: rest =>
+    LevelRefines shape sp fl ∧ ∀ r, levelNp shape sp fl = .ok r → ChainRefines r.2 rest
+
+open OMV.C05 OMV.C04Idx in
+theorem levelOm_eq_np (shape : List Nat) (spec : C05.Spec) (flat : Bool)
+    (h : LevelRefines shape spec flat) (r : List Nat × List Nat)
+    (hr : levelOm shape spec flat = .ok r) : levelNp shape spec flat = .ok r := by
+  unfold levelOm at hr
+  cases ho : omIndexer spec shape flat with
+  | error e => simp [ho, bind, Except.bind] at hr
+  | ok o =>
+    obtain ⟨h1, h2⟩ := h o ho
+    simp only [ho, bind, Except.bind] at hr
+    cases hp : o.positions with
+    | error e => simp [hp] at hr
+    | ok p =>
+      cases hs : o.rshape with
+      | error e => simp [hp, hs] at hr
+      | ok sh =>
+        simp only [hp, hs, pure, Except.pure, Except.ok.injEq] at hr
+        unfold levelNp
+        cases hn : npIndex (levelShape shape flat) spec with
+        | error e => rw [hn, hp] at h1; simp [Except.map] at h1
+        | ok ab =>
+          rw [hn, hp] at h1; rw [hn, hs] at h2
+          simp only [Except.map, Except.ok.injEq] at h1 h2
+          subst hr
+          have : (natsToInts ab.1).map Int.toNat = ab.1 := by
+            simp [natsToInts, List.map_map, Function.comp_def]
+          rw [h1, this, h2]
+
+open OMV.C05 OMV.C04Idx in
+/-- **The positions OpenMDAO computes for a chain of index specifications are NumPy's.**  If every
+level's indexer refines NumPy (C05), the per-level positions `core/conn_graph.py` composes are the
+ones NumPy indexing gives level after level on the shapes it leaves. -/
+theorem C04_chain_specs_numpy (levels : List (C05.Spec × Bool)) :
+    ∀ (shape : List Nat) (ps : List (List Nat)), ChainRefines shape levels →
+      chainSpecsOm shape levels = .ok ps → chainSpecsNp shape levels = .ok ps := by
+  induction levels with
+  | nil => intro shape ps _ h; simpa [chainSpecsOm, chainSpecsNp, chainWith] using h
+  | cons l rest ih =>
+    obtain ⟨sp, fl⟩ := l
+    intro shape ps hc h
+    obtain ⟨h1, h2⟩ := hc
+    simp only [chainSpecsOm, chainSpecsNp, chainWith, bind, Except.bind] at h ⊢
+    cases hl : levelOm shape sp fl with
+    | error e => simp [hl] at h
+    | ok r =>
+      have hn := levelOm_eq_np shape sp fl h1 r hl
+      simp only [hl] at h
+      simp only [hn]
+      cases hr : chainWith levelOm r.2 rest with
+      | error e => simp [hr] at h
+      | ok qs =>
+        simp only [hr, pure, Except.pure, Except.ok.injEq] at h
+        have := ih r.2 qs (h2 r hn) (by simpa [chainSpecsOm] using hr)
+        simp only [chainSpecsNp] at this
+        simp [this, pure, Except.pure, h]
+
+open OMV.C05 OMV.C04Idx in
+/-- levels written as tuples without an ellipsis and without zero steps (the form the generator
+calls "safe"; what C05 proves to refine NumPy for every shape) -/
+def TupLevels (levels : List (C05.Spec × Bool)) : Prop :=
+  ∀ l ∈ levels, ∃ xs, l.1 = .tup xs ∧ xs.any isEll = false ∧ ∀ x ∈ xs, stepOk x
+
+open OMV.C05 OMV.C04Idx in
+theorem C04_tuple_levels_refine (levels : List (C05.Spec × Bool)) (h : TupLevels levels) :
+    ∀ shape, ChainRefines shape levels := by
+  induction levels with
+  | nil => intro _; trivial
+  | cons l rest ih =>
+    obtain ⟨sp, fl⟩ := l
+    intro shape
+    obtain ⟨xs, hx, hne, hst⟩ := h (sp, fl) (by simp)
+    simp only at hx
+    subst hx
+    refine ⟨?_, fun r _ => ih (fun l hl => h l (List.mem_cons_of_mem _ hl)) r.2⟩
+    intro out ho
+    simpa [levelShape] using C05_tuple_refines_numpy xs shape fl out hne hst ho
+
+open OMV.C05 OMV.C04Idx in
+/-- End to end for tuple-form chains: the positions the indexer computes are NumPy's, and gathering
+the source once through their composition equals indexing the value level after level. -/
+theorem C04_connected_value_numpy {K : Type} [OfNat K 0] (shape : List Nat)
+    (levels : List (C05.Spec × Bool)) (ps : List (List Nat)) (v : List K)
+    (ht : TupLevels levels) (hom : chainSpecsOm shape levels = .ok ps)
+    (hok : ChainOk v.length ps) :
+    chainSpecsNp shape levels = .ok ps ∧
+      gather (chainPos v.length ps) v = chainVal ps v :=
+  ⟨C04_chain_specs_numpy levels shape ps (C04_tuple_levels_refine levels ht shape) hom,
+   C04_chain_naturality ps v hok⟩
+
+open OMV.C05 OMV.C04Idx in
+example : chainSpecsOm [3, 4] [(.tup [.slice (some 1) none none, .arr [2] [0, 3]], false),
+                               (.tup [.slice none none (some (-1))], true)]
+    = .ok [[4, 7, 8, 11], [3, 2, 1, 0]] ∧
+    TupLevels [(.tup [.slice (some 1) none none, .arr [2] [0, 3]], false),
+               (.tup [.slice none none (some (-1))], true)] := by
+  refine ⟨by decide +kernel, ?_⟩
+  intro l hl
+  simp only [List.mem_cons, List.not_mem_nil, or_false] at hl
+  rcases hl with rfl | rfl
+  · exact ⟨_, rfl, by decide, by intro x hx; simp at hx; rcases hx with rfl | rfl <;> simp [stepOk]⟩
+  · exact ⟨_, rfl, by decide, by intro x hx; simp at hx; subst hx; simp [stepOk]⟩
 
 end OMV.Spec
